@@ -33,6 +33,7 @@ def run(ctx):
 
     inputs = dwcheck.build_inputs(ctx, 60 if quick else 500, imports=True, links=True)
     dwcheck.compare_views(ctx, inputs, ("raw",), dwcheck.ALL_FIELDS, bad, stats)
+    dwcheck.compare_archives(ctx, inputs, ("raw",), dwcheck.ALL_FIELDS, bad, stats)
     # samples vs readelf
     nsamples = 0
     for p in dwforest.sample_files():
